@@ -1099,6 +1099,10 @@ class CompositeEnvelope:
         outcomes: Dict["BaseState", int]
         outcomes = {}
 
+        for s in states:
+            if s.measured:
+                raise ValueError("Given state has already been destroyed")
+
         # Compile the complete list of states
         state_list = list(states)
         if not separate_measurement:
